@@ -156,6 +156,46 @@ Theorem C16_off_inert_effects : forall marker uv c ld period now tok, marker <> 
 Proof. exact off_inert_effects. Qed.
 Print Assumptions C16_off_inert_effects.
 
+(* --------------------------------------------------- no directory *)
+
+(* telemetry.Default: Config.TelemetryDir if given, else the directory below
+   os.UserConfigDir(), else the zero Dir (Model/Start: program_run_env,
+   spawned_env with the two booleans).  Without either, the mode is off
+   whatever files exist in the working directory or elsewhere: nothing is
+   started, by any marker, entry point, flags, to any depth ... *)
+Theorem C16_no_directory_no_launch : forall fuel e marker uv c mode ld period now tok,
+  spawned_env fuel e false false marker uv c mode ld period now tok = [].
+Proof. exact no_directory_no_launch. Qed.
+Print Assumptions C16_no_directory_no_launch.
+
+(* ... the application's Start only asks for the mode ... *)
+Theorem C16_no_directory_app : forall e uv c mode ld period now tok,
+  program_run_env e false false [] uv c mode ld period now tok = mkR OReturned [EReadMode] tok.
+Proof. exact no_directory_app. Qed.
+Print Assumptions C16_no_directory_app.
+
+(* ... and no process other than one that already is a sidecar writes or execs. *)
+Theorem C16_no_directory_effects : forall e marker uv c mode ld period now tok, marker <> lit_1 ->
+  forall x, In x (r_effects (program_run_env e false false marker uv c mode ld period now tok)) ->
+    is_write x = false /\ is_exec x = false.
+Proof. exact no_directory_effects. Qed.
+Print Assumptions C16_no_directory_effects.
+
+(* With a directory from either source the mode read from it decides. *)
+Theorem C16_known_directory_run : forall e a b marker uv c mode ld period now tok, dir_known a b = true ->
+  program_run_env e a b marker uv c mode ld period now tok = start_run marker uv c mode ld period now tok /\
+  spawned_env 4 e a b marker uv c mode ld period now tok = spawned 4 marker uv c mode ld period now tok.
+Proof. exact known_directory_run. Qed.
+Print Assumptions C16_known_directory_run.
+
+Theorem C16_oracle_accepts_model_env : forall fuel e a b marker uv c mode ld period now tok,
+  let m := effective_mode (dir_known a b) mode in
+  let r := program_run_env e a b marker uv c mode ld period now tok in
+  start_ok marker uv c m period now tok (token_created r) (fs_changed r)
+           (spawned_env fuel e a b marker uv c mode ld period now tok) = true.
+Proof. exact oracle_accepts_model_env. Qed.
+Print Assumptions C16_oracle_accepts_model_env.
+
 (* --------------------------------------------------- upload token *)
 
 (* Any number n of starters, any schedule (any interleaving of their Stat /
